@@ -119,6 +119,10 @@ impl TimerDevice {
     }
     /// Generates a new random time.
     fn try_generate_time(&mut self) -> u32 {
+        #[cfg(endorpersand_lc3_ensemble_verif)]
+        if let Some(v) = crate::verif::timer_sample(self.range.start, self.range.end, self.range.end_incl) {
+            return v;
+        }
         match self.range {
             SampleRange { start, end, end_incl: true } => self.generator.random_range(start..=end),
             SampleRange { start, end, end_incl: false } => self.generator.random_range(start..end),
